@@ -22,6 +22,7 @@ func checkC01(c *Ctx) {
 	c01Split(c)
 	c09Reassembly2(c, "C01-K4")
 	sortedKeysComplete(c, "C01-K5")
+	c07SortedKeys(c)
 }
 
 // c01Names: K2 reader side
